@@ -135,19 +135,34 @@ def replay_step(res, family, kinds=None, modes="base", profile="release", backen
     for t, n in summ["tags"].items():
         if t != res.prop:
             res.other_tags[t] = res.other_tags.get(t, 0) + n
+    bkey = (family, kinds, modes)
     if baseline:
         # disagreements with the specification that the reference build shows as well
         res.baseline_mismatches = getattr(res, "baseline_mismatches", set()) | {(m["vector"], m["prop"]) for m in mism}
+        res.baseline_digest = getattr(res, "baseline_digest", {})
+        res.baseline_digest[bkey] = (summ["mismatch_digest"], dict(summ["tags"]))
     if promote:
-        # this run differs from the reference build only in backend / build variant / profile:
-        # a disagreement with the specification that the reference build does not show is a
-        # dependence of the result on that difference
-        base = getattr(res, "baseline_mismatches", set())
-        for m in mism:
-            if m["prop"] != res.prop and m["prop"] not in ("C19",) and (m["vector"], m["prop"]) not in base:
-                m2 = dict(m, prop=res.prop, msg="only in this backend/build variant (%s): %s" % (lab, m["msg"]))
-                mism.append(m2)
-                summ["tags"][res.prop] = summ["tags"].get(res.prop, 0) + 1
+        # this run differs from the reference build only in backend / build variant / profile.
+        # Same family, same mode, same expansions: if the set of disagreements with the
+        # specification is the same as in the reference build (order-independent digest over ALL
+        # mismatches, not only the listed ones), nothing depends on the difference.  Otherwise the
+        # listed disagreements the reference build does not show are dependences of the result on
+        # backend / build variant / profile.
+        bd = getattr(res, "baseline_digest", {}).get(bkey)
+        if bd is None or bd[0] != summ["mismatch_digest"]:
+            base = getattr(res, "baseline_mismatches", set())
+            for m in list(mism):
+                if m["prop"] != res.prop and m["prop"] not in ("C19",) and (m["vector"], m["prop"]) not in base:
+                    m2 = dict(m, prop=res.prop, msg="only in this backend/build variant (%s): %s" % (lab, m["msg"]))
+                    mism.append(m2)
+                    summ["tags"][res.prop] = summ["tags"].get(res.prop, 0) + 1
+            if bd is not None and not any(m["prop"] == res.prop for m in mism):
+                # the sets differ but the difference is beyond the listed mismatches
+                extra = {t: n - bd[1].get(t, 0) for t, n in summ["tags"].items() if n != bd[1].get(t, 0)}
+                if extra:
+                    mism.append({"prop": res.prop, "msg": "disagreements with the specification differ from the reference build (%s): %s" % (lab, extra),
+                                 "entry": "", "context": lab, "vector": mism[0]["vector"] if mism else ""})
+                    summ["tags"][res.prop] = summ["tags"].get(res.prop, 0) + 1
     mine = [m for m in mism if m["prop"] == res.prop]
     for m in mine[:20]:
         res.violation("%s [%s, %s]" % (m["msg"], m["entry"], m["context"]),
@@ -205,13 +220,23 @@ def finish(res, level, level_rule, assumptions):
         cov["explanation"] = ("the specification contributes outcome coverage (TLC skeleton: one witness per abstract automaton state, "
                               "every verdict and error kind); the judgement is a counting global allocator around every replayed call "
                               "(%d calls, all outcomes listed under replay_steps) and an allocator-less no_std link" % res.evaluations)
+    # vacuity guard: a check whose vectors never showed one of the three verdicts, or whose
+    # replay steps bound nothing to the code, has not exercised its property
+    if res.replays:
+        agg = {}
+        for r in res.replays:
+            for k, v in (r.get("by_kind_verdict") or {}).items():
+                agg[k.split(":")[1]] = agg.get(k.split(":")[1], 0) + v
+        cov["verdicts_exercised"] = agg
+        if any(agg.get(x, 0) == 0 for x in ("P", "C", "E")) and not res.violations:
+            raise ToolError("vacuous run: the replayed vectors of %s did not cover all three verdicts: %s" % (res.prop, agg))
     cov.update(res.extra)
     write_evidence(res.prop, res.tier, res.seed, level, cov, wall, len(new), assumptions + res.assumptions)
     if res.drift:
         log("DRIFT: %d observation(s) differ from the implementation-shaped expectations of the specification (not a property violation)" % res.drift)
     if new:
         for v in new[:10]:
-            p = write_replay(res.prop, dict(v["replay"], property=res.prop, message=v["msg"]))
+            p = write_replay(res.prop, dict(v["replay"], property=res.prop, message=v["msg"], seed=res.seed, tier=res.tier))
             log("VIOLATION property=%s replay=%s" % (res.prop, p))
             log("  " + v["msg"])
         return 1
